@@ -122,9 +122,9 @@ def main():
             F.violation("C10:parent-thread-stuck", "%d of %d parent threads finished after the fork (%s)" % (ev["victims_done"], ev["victims"], desc), wit)
         if ev["problem"]:
             F.violation("C10:" + ev["problem"].split(":")[0], "%s (%s)" % (ev["problem"], desc), wit)
-    if tot["in_lock"] == 0 or tot["after_unlock"] == 0:
+    if (tot["in_lock"] == 0 or tot["after_unlock"] == 0) and F.n_unlisted() == 0:
         raise Harness("fork points not reached: %s" % tot)
-    if tot["inconclusive"] > max(2, tot["scenarios"] // 50):
+    if (tot["inconclusive"] > max(2, tot["scenarios"] // 50)) and F.n_unlisted() == 0:
         raise Harness("too many inconclusive scenarios: %s" % tot)
     rc = F.report()
     write_evidence(PROP, "fault_enumeration", tr, dict(
